@@ -41,6 +41,11 @@ func run(c *Ctx) {
 		scripts = append(scripts, ml.GenScript(c.Rng, "classify", 36))
 	}
 	ml.RunScripts(c, "c02", scripts)
+	var fl []ml.FlvScript
+	for i := 0; i < c.Budget(120, 2500); i++ {
+		fl = append(fl, ml.GenFlvScript(c.Rng))
+	}
+	ml.RunFlvScripts(c, "c02", fl)
 	for _, hevc := range []bool{false, true} {
 		ml.RecordOutcome(c, ml.ScJoinRace(false, hevc), "c02")
 		ml.RecordOutcome(c, ml.ScJoinRace(true, hevc), "c02")
